@@ -36,6 +36,8 @@ def answerSql (s : SqliteDict.State) (q : String) : Option String :=
   match q.splitOn "," with
   | ["R"] => some "ok"
   | ["L", k, n, st] => some (phrasesS (SqliteDict.lookupFirstN s (parseKey k) (parseN n) (parseStrat st)))
+  | ["P", k, st] => some (phrasesS (firstPhraseOf (fun n => SqliteDict.lookupFirstN s (parseKey k) n (parseStrat st))).toList)
+  | ["A", k, st] => some (phrasesS (allPhrasesOf (fun n => SqliteDict.lookupFirstN s (parseKey k) n (parseStrat st))))
   | ["E"] => some (entriesSqlS (SqliteDict.entries s))
   | _ => none
 
